@@ -140,7 +140,7 @@ fn sets_upto2(r: &[(usize, usize)]) -> Vec<Vec<(usize, usize)>> {
     v
 }
 
-pub const TEXTS: [&str; 3] = ["ab \u{a0}c d", "abcdefg", "one  two\tthree \u{2003} four five"];
+pub const TEXTS: [&str; 4] = ["ab \u{a0}c d", "abcdefg", "one  two\tthree \u{2003} four five", "ab  \u{a0}  \t \u{2003}     cd e"];
 
 fn bind_rule(ti: usize, bb: usize, ee: usize) -> bool {
     match ti {
@@ -289,8 +289,8 @@ pub fn generate(out: &mut Out, tier: &str, seed: u64) {
             }
         }
     }
-    // random larger sets on a longer text
-    let n = TEXTS[2].chars().count();
+    // random larger sets on two longer texts (the second has a whitespace run longer than the limit)
+    let n = TEXTS[3].chars().count();
     let rlimits: Vec<Option<usize>> = vec![None, Some(0), Some(3), Some(9)];
     let ropsx = l(all_ops(&rlimits).iter().map(op_sx).collect());
     let mut rng = Rng::new(seed);
@@ -310,11 +310,12 @@ pub fn generate(out: &mut Out, tier: &str, seed: u64) {
         let bs = rset(&mut rng);
         let sa = rng.chance(1, 2);
         let sb = rng.chance(1, 2);
+        let ti = 2 + rng.below(2);
         match rng.below(4) {
-            0 => emit(&ctx, out, 0, 2, &asx[..1], false, &bs[..1], false, &ropsx),
-            1 => emit(&ctx, out, 1, 2, &asx[..1], false, &bs, sb, &ropsx),
-            2 => emit(&ctx, out, 2, 2, &asx, sa, &bs[..1], false, &ropsx),
-            _ => emit(&ctx, out, 3, 2, &asx, sa, &bs, sb, &ropsx),
+            0 => emit(&ctx, out, 0, ti, &asx[..1], false, &bs[..1], false, &ropsx),
+            1 => emit(&ctx, out, 1, ti, &asx[..1], false, &bs, sb, &ropsx),
+            2 => emit(&ctx, out, 2, ti, &asx, sa, &bs[..1], false, &ropsx),
+            _ => emit(&ctx, out, 3, ti, &asx, sa, &bs, sb, &ropsx),
         }
     }
 }
